@@ -34,7 +34,7 @@ def base_defs(flavour, base_t, sz):
     ct, mx = SIZES[sz]
     return {'S_T': ct, 'KMAX': mx, 'FLAVOUR': str(flavour), 'BASE_T': 'struct ' + base_t,
             'GHOST_ASSIGNS': 'l0_exc, g_cell_obj, g_cell_off, g_cell_st, g_cell_val, g_tok_on, g_tok_obj, g_tok_off, g_tokval, g_blk_obj, g_blk_bytes, '
-                             'g_blk_state, g_nalloc, g_ndealloc, g_nrealloc, g_nctor, g_nassign, g_ndtor, g_nmove, g_nbytecopy, g_ncmp, g_cmp_obj1, '
+                             'g_blk_state, g_nalloc, g_ndealloc, g_nrealloc, g_nctor, g_nassign, g_ndtor, g_nmove, g_nbytecopy, g_ncmp, g_tmp_obj, g_tmp_has, g_tmp_val, g_cmp_obj1, '
                              'g_cmp_off1, g_cmp_n1, g_cmp_obj2, g_cmp_off2, g_cmp_n2, g_cmp_kind'}
 
 def units():
@@ -68,7 +68,15 @@ def units():
     L2 = [('push_back__rE', ALLP + ['C10']), ('push_back__rrE', ALLP), ('pop_back__v', ['C01', 'C02', 'C05', 'C07', 'C09']),
           ('clear__v', ['C01', 'C02', 'C05', 'C07', 'C09']), ('resize__%(S)s', ALLP), ('resize__%(S)s_rE', ALLP + ['C10']),
           ('insert__pE_rE', ALLP + ['C10']), ('insert__pE_rrE', ALLP), ('insert__pE_%(S)s_rE', ALLP + ['C10']),
-          ('erase__pE', ['C01', 'C02', 'C05', 'C07', 'C09']), ('erase__pE_pE', ['C01', 'C02', 'C05', 'C07', 'C09'])]
+          ('erase__pE', ['C01', 'C02', 'C05', 'C07', 'C09']), ('erase__pE_pE', ['C01', 'C02', 'C05', 'C07', 'C09']),
+          ('assign__%(S)s_rE', ALLP + ['C10']), ('append__%(S)s', ALLP), ('append__%(S)s_rE', ALLP + ['C10']), ('append__pE_pE', ALLP),
+          ('at__%(S)s', ['C01', 'C08']), ('at__%(S)s_c', ['C01', 'C08', 'C20']), ('op_index__%(S)s_c', ['C01', 'C20']), ('data__v_c', ['C01', 'C20']),
+          ('end__v_c', ['C01', 'C20']), ('front__v_c', ['C01', 'C20']), ('back__v_c', ['C01', 'C20']), ('empty__v_c', ['C01', 'C20'])]
+    # operations defined one level below VectorImpl (DynamicVector / StaticVector)
+    DPAT = {'small': 'DynamicVector_E_A_%s_t', 'std': 'DynamicVector_E_A_%s_f', 'static': 'StaticVector_E_%s_Exc'}
+    L2D = [('emplace_back__rE', ALLP + ['C10'], 1), ('emplace_back__rrE', ALLP, 2), ('emplace_back__rri32', ALLP, 3),
+           ('emplace__pE_rE', ALLP + ['C10'], 1), ('emplace__pE_rrE', ALLP, 2), ('emplace__pE_rri32', ALLP, 3),
+           ('reserve__%(S)s', ['C01', 'C05', 'C06', 'C07', 'C08', 'C09', 'C18'], 0)]
     for elem in ('ElemNR', 'ElemTR'):
         et = ELEM_TAG[elem]
         for sz in ('u8',):
@@ -77,6 +85,11 @@ def units():
                     pp = [p for p in props if not (fl == 'static' and p in ('C06', 'C18')) and not (fl == 'std' and p == 'C05')]
                     m2 = m % {'S': sz}
                     add('op.%s.%s.%s.%s' % (m2.split('__')[0] + '_' + m2.split('__')[1], fl, et, sz), (vpat % sz) + '__' + m2, pp, fnum, bpat % sz, sz, elem)
+                for m, props, ek in L2D:
+                    pp = [p for p in props if not (fl == 'static' and p in ('C06', 'C18')) and not (fl == 'std' and p == 'C05')]
+                    m2 = m % {'S': sz}
+                    add('op.%s.%s.%s.%s' % (m2.split('__')[0] + '_' + m2.split('__')[1], fl, et, sz), (DPAT[fl] % sz) + '__' + m2, pp, fnum, bpat % sz, sz, elem)
+                    us[-1]['defs']['EMPLACE_KIND'] = str(ek)
     for sz in ('u8',):
         add('SafeNextCapacity.%s' % sz, 'SafeNextCapacity__%s_u64_b' % sz, ['C08', 'C18'], 1, svb('ElemNR', sz), sz, 'ElemNR')
     add('ExceptionGrowingPolicy.Check', 'Exc__Check__u64_u64', ['C08'], 1, svb('ElemNR', 'u8'), 'u8', 'ElemNR')
